@@ -310,6 +310,8 @@ class Ctx:
     self.excluded = 0
     self.exhaustive = None
     self.extra = {}
+    # total time allowed for minimising failing cases in this run (a failing run must not become a slow run)
+    self.shrink_left = 0 if os.environ.get("VT_NO_SHRINK") else (60 if self.ti == 0 else 900)
 
   def run_part(self, part):
     modname = self.mod.__name__
@@ -346,17 +348,21 @@ class Ctx:
         self.excluded += count
         continue
       case = codec.loads(cj)
-      if part.shrinker is not None:
-        case = _greedy(part, case, bucket, 40 if self.ti == 0 else 300)
+      t_s = time.time()
+      budget = min(self.shrink_left, 20 if self.ti == 0 else 240)
+      if budget < 2:
+        pass
+      elif part.shrinker is not None:
+        case = _greedy(part, case, bucket, budget)
         r = run_check(part.check, case)
         detail = next((d for b, d in r.fails if b == bucket), detail)
       elif part.strategy is not None:
-        small = _shrink(modname, part.name, self.tier, self.seed * 1000, bucket, 400 if self.ti == 0 else 3000,
-                        30 if self.ti == 0 else 240)
+        small = _shrink(modname, part.name, self.tier, self.seed * 1000, bucket, 400 if self.ti == 0 else 3000, budget)
         if small is not None and len(codec.dumps(small)) <= len(cj):
           case = small
           r = run_check(part.check, case)
           detail = next((d for b, d in r.fails if b == bucket), detail)
+      self.shrink_left -= time.time() - t_s
       path = write_replay(self.pid, part.name, bucket, case, detail)
       self.violations.append((bucket, path, count, detail))
     self.parts[part.name] = {"evaluations": acc.evaluations, "distinct_nontrivial": len(acc.nt) + acc.nt_counted,
